@@ -2,6 +2,6 @@
     Only ExtrOcamlBasic is used: bool, option, list, prod, unit, sumbool map to OCaml natives;
     N, Z, positive, Q, nat, ascii, string stay the Coq datatypes. *)
 From Coq Require Import Extraction ExtrOcamlBasic.
-From SQ Require Import Obs.
+From SQ Require Import ObsCli.
 Extraction Language OCaml.
-Extraction "sqmodel.ml" run_case.
+Extraction "sqmodel.ml" run_case2.
